@@ -1,10 +1,1390 @@
-//! C15 — stub: property not yet claimed.
+//! C15 — TLS channels and servers authenticate the peer and insist on HTTP/2.
+//!
+//! One case = one configuration of the property's matrix (plus extension values), run through
+//! REAL rustls handshakes: a tonic `Endpoint` (`tls_config` + `connect_with_connector`) against a
+//! tonic `Server` (`tls_config` + `serve_with_incoming`) — or, for the ALPN variants tonic's own
+//! acceptor cannot produce, against a hand-rolled tokio-rustls acceptor that hands the accepted
+//! TLS streams to a tonic server.  Transport is a loopback TCP socket (127.0.0.1, port 0) or an
+//! in-memory `tokio::io::duplex`.
+//!
+//! case line:
+//!   `tls <client> [| <client>]… ; <servercert> <alpn> <srvops> <transport>`
+//!   `<client>` = `<scheme> <urihost> <ops…>`; several clients share the one server instance
+//!   (one after the other, or concurrently with `-par`), outcomes are reported per client.
+//!   `<transport>` = `tcp|duplex` + any of `-lazy` (connect_with_connector_lazy, failed call
+//!   retried once), `-x2` (each client connects twice from the same Endpoint, so the second TLS
+//!   session resumes), `-par`, `-native` (`Endpoint::connect()` with tonic's own HttpConnector to a
+//!   recording loopback proxy in front of the server; URI host must be `ip`), `-cto` (a
+//!   connect_timeout is set, so the connector runs inside a TimeoutConnector).
+//! `<ops…>` is the sequence of `ClientTlsConfig` builder calls, in order (may be empty):
+//!   `ca:<ca1|ca2|ica1|junk|broken>`  `cas:<a>+<b>`  `ta:<ca>`  `tas:<a>+<b>` (trust anchors)
+//!   `dom:<good|bad|other|ip|invalid>`  `id:<c1|c2|c1chain|brokencert|nokey>`
+//!   `h2:<0|1>` (assume_http2)  `roots` (with_enabled_roots)
+//! or the single token `notls` (`Endpoint::from_shared`, no `tls_config` call) or `auto`
+//! (`Endpoint::new`, the entry point generated clients use).
+//! `<alpn>`: `h2` = tonic's own `Server::tls_config`; `plain` = tonic server without TLS;
+//! `none|http11|h2first|h2last|h2only` = hand-rolled tokio-rustls acceptor with that ALPN list.
+//! `<srvops>`: `-` or `+`-joined `ServerTlsConfig` calls after `identity`: `ca:<ca>` `opt:<0|1>` `ico:<0|1>`.
+//!
+//! Also `srvcfg <op>+<op>…`: `Server::builder().tls_config(..)` alone (`ok|err:<class>|panic`).
+//!
+//! observed line (one group per client, joined by ` | `):
+//!   `res=<ok|fail:CLASS> cfg=<ok|err:…> h=<handler runs> peer=<…> ext=<…> plain=<0|1> dial=<0|1>`
 use crate::common::*;
+use std::future::Future;
+use std::io;
+use std::pin::Pin;
+use std::sync::atomic::{AtomicUsize, Ordering};
+use std::sync::{Arc, Mutex};
+use std::task::{Context, Poll};
+use std::time::Duration;
+use tokio::io::{AsyncRead, AsyncWrite, ReadBuf};
+use tokio_rustls::rustls;
+use tokio_rustls::rustls::pki_types::{pem::PemObject, CertificateDer, PrivateKeyDer};
+use tonic::transport::server::{Connected, TcpConnectInfo, TlsConnectInfo};
+use tonic::transport::{Certificate, ClientTlsConfig, Endpoint, Identity, Server, ServerTlsConfig};
 
-pub fn generate(_tier: &str, _rng: &mut Rng) -> Vec<String> {
-    Vec::new()
+macro_rules! pem {
+    ($n:literal) => {
+        include_str!(concat!("../certs/", $n, ".pem"))
+    };
 }
 
-pub fn execute(_case: &str) -> String {
-    "unclaimed".into()
+fn cert_pem(name: &str) -> Option<&'static str> {
+    Some(match name {
+        "ca1" => pem!("ca1"),
+        "ca2" => pem!("ca2"),
+        "ica1" => pem!("ica1"),
+        "s1good" => pem!("s1good"),
+        "s1bad" => pem!("s1bad"),
+        "s2good" => pem!("s2good"),
+        "s1ip" => pem!("s1ip"),
+        "c1" => pem!("c1"),
+        "c2" => pem!("c2"),
+        "c1chain" => pem!("c1chain"),
+        "junk" => "-----BEGIN NOTHING-----\nAAAA\n-----END NOTHING-----\n",
+        "broken" | "brokencert" => "-----BEGIN CERTIFICATE-----\n!!!! not base64 !!!!\n-----END CERTIFICATE-----\n",
+        "nokey" => pem!("c1"),
+        _ => return None,
+    })
+}
+
+fn key_pem(name: &str) -> Option<&'static str> {
+    Some(match name {
+        "s1good" => pem!("s1good.key"),
+        "s1bad" => pem!("s1bad.key"),
+        "s2good" => pem!("s2good.key"),
+        "s1ip" => pem!("s1ip.key"),
+        "c1" => pem!("c1.key"),
+        "c2" => pem!("c2.key"),
+        "c1chain" => pem!("c1chain.key"),
+        "brokencert" => pem!("c1.key"),
+        "nokey" => "-----BEGIN NOTHING-----\nAAAA\n-----END NOTHING-----\n",
+        _ => return None,
+    })
+}
+
+fn ders(pem: &str) -> Vec<Vec<u8>> {
+    CertificateDer::pem_slice_iter(pem.as_bytes())
+        .filter_map(|c| c.ok())
+        .map(|c| c.as_ref().to_vec())
+        .collect()
+}
+
+fn host_of(tok: &str) -> Option<&'static str> {
+    Some(match tok {
+        "good" => "good.test",
+        "bad" => "bad.test",
+        "other" => "other.test",
+        "ip" => "127.0.0.1",
+        "invalid" => "not a name!",
+        _ => return None,
+    })
+}
+
+// ------------------------------------------------------------------------------------------
+// byte tap: everything the client side writes to / reads from the wire
+
+#[derive(Default)]
+struct TapLog {
+    written: Vec<u8>,
+}
+
+struct Tap<IO> {
+    inner: IO,
+    log: Arc<Mutex<TapLog>>,
+}
+
+impl<IO: AsyncRead + Unpin> AsyncRead for Tap<IO> {
+    fn poll_read(mut self: Pin<&mut Self>, cx: &mut Context<'_>, buf: &mut ReadBuf<'_>) -> Poll<io::Result<()>> {
+        Pin::new(&mut self.inner).poll_read(cx, buf)
+    }
+}
+
+impl<IO: AsyncWrite + Unpin> AsyncWrite for Tap<IO> {
+    fn poll_write(mut self: Pin<&mut Self>, cx: &mut Context<'_>, buf: &[u8]) -> Poll<io::Result<usize>> {
+        let r = Pin::new(&mut self.inner).poll_write(cx, buf);
+        if let Poll::Ready(Ok(n)) = &r {
+            let mut l = self.log.lock().unwrap();
+            if l.written.len() < (1 << 20) {
+                l.written.extend_from_slice(&buf[..*n]);
+            }
+        }
+        r
+    }
+    fn poll_flush(mut self: Pin<&mut Self>, cx: &mut Context<'_>) -> Poll<io::Result<()>> {
+        Pin::new(&mut self.inner).poll_flush(cx)
+    }
+    fn poll_shutdown(mut self: Pin<&mut Self>, cx: &mut Context<'_>) -> Poll<io::Result<()>> {
+        Pin::new(&mut self.inner).poll_shutdown(cx)
+    }
+}
+
+fn contains(hay: &[u8], needle: &[u8]) -> bool {
+    !needle.is_empty() && hay.windows(needle.len()).any(|w| w == needle)
+}
+
+const MARKER: &str = "VERIF-C15-PLAINTEXT-MARKER-0123456789";
+const H2_PREFACE: &[u8] = b"PRI * HTTP/2.0";
+
+// ------------------------------------------------------------------------------------------
+// the service: one unary method; records what the handler saw
+
+/// What the handlers saw: (client index taken from the request payload, peer-cert rendering).
+#[derive(Default)]
+struct Obs {
+    runs: Mutex<Vec<(usize, String)>>,
+}
+
+trait ExtCerts {
+    fn ext_certs(req: &tonic::Request<String>) -> Option<Option<Vec<Vec<u8>>>>;
+}
+impl ExtCerts for tokio::net::TcpStream {
+    fn ext_certs(req: &tonic::Request<String>) -> Option<Option<Vec<Vec<u8>>>> {
+        req.extensions()
+            .get::<TlsConnectInfo<TcpConnectInfo>>()
+            .map(|i| i.peer_certs().map(|v| v.iter().map(|c| c.as_ref().to_vec()).collect()))
+    }
+}
+impl ExtCerts for tokio::io::DuplexStream {
+    fn ext_certs(req: &tonic::Request<String>) -> Option<Option<Vec<Vec<u8>>>> {
+        req.extensions()
+            .get::<TlsConnectInfo<()>>()
+            .map(|i| i.peer_certs().map(|v| v.iter().map(|c| c.as_ref().to_vec()).collect()))
+    }
+}
+
+fn render_certs(seen: Option<&Vec<Vec<u8>>>, presented: &[Vec<u8>]) -> String {
+    match seen {
+        None => "none".into(),
+        Some(v) => format!("{}:{}", v.len(), if v.as_slice() == presented { "eq" } else { "ne" }),
+    }
+}
+
+struct Svc<IO> {
+    obs: Arc<Obs>,
+    /// per client index: the chain that client is configured to present (DER)
+    presented: Arc<Vec<Vec<Vec<u8>>>>,
+    _io: std::marker::PhantomData<fn(IO)>,
+}
+impl<IO> Clone for Svc<IO> {
+    fn clone(&self) -> Self {
+        Svc { obs: self.obs.clone(), presented: self.presented.clone(), _io: Default::default() }
+    }
+}
+impl<IO> tonic::server::NamedService for Svc<IO> {
+    const NAME: &'static str = "verif.Tls";
+}
+
+fn payload(idx: usize) -> String {
+    format!("{}#{}", MARKER, idx)
+}
+
+struct Handler<IO>(Svc<IO>);
+impl<IO: ExtCerts> tonic::server::UnaryService<String> for Handler<IO> {
+    type Response = String;
+    type Future = std::future::Ready<Result<tonic::Response<String>, tonic::Status>>;
+    fn call(&mut self, req: tonic::Request<String>) -> Self::Future {
+        let s = &self.0;
+        let idx = req.get_ref().rsplit('#').next().and_then(|x| x.parse::<usize>().ok()).unwrap_or(usize::MAX);
+        let empty = Vec::new();
+        let presented = s.presented.get(idx).unwrap_or(&empty);
+        let api = req.peer_certs().map(|v| v.iter().map(|c| c.as_ref().to_vec()).collect::<Vec<_>>());
+        let ext = IO::ext_certs(&req);
+        let ext_s = match &ext {
+            None => "absent".to_string(),
+            Some(c) => render_certs(c.as_ref(), presented),
+        };
+        s.obs
+            .runs
+            .lock()
+            .unwrap()
+            .push((idx, format!("peer={} ext={}", render_certs(api.as_ref(), presented), ext_s)));
+        std::future::ready(Ok(tonic::Response::new(format!("echo:{}", req.get_ref()))))
+    }
+}
+
+impl<IO: ExtCerts + 'static> tower_service::Service<http::Request<tonic::body::Body>> for Svc<IO> {
+    type Response = http::Response<tonic::body::Body>;
+    type Error = std::convert::Infallible;
+    type Future = Pin<Box<dyn Future<Output = Result<Self::Response, Self::Error>> + Send>>;
+    fn poll_ready(&mut self, _: &mut Context<'_>) -> Poll<Result<(), Self::Error>> {
+        Poll::Ready(Ok(()))
+    }
+    fn call(&mut self, req: http::Request<tonic::body::Body>) -> Self::Future {
+        let me = self.clone();
+        Box::pin(async move {
+            let mut grpc = tonic::server::Grpc::new(tonic::codec::ProstCodec::<String, String>::default());
+            Ok(grpc.unary(Handler(me), req).await)
+        })
+    }
+}
+
+// ------------------------------------------------------------------------------------------
+// case
+
+#[derive(Debug, Clone)]
+struct ClientSpec {
+    scheme: String,
+    urihost: String,
+    ops: Vec<String>,
+}
+
+#[derive(Debug, Clone)]
+struct Case {
+    clients: Vec<ClientSpec>,
+    servercert: String,
+    alpn: String,
+    sops: Vec<String>,
+    /// `tcp` | `duplex`
+    base: String,
+    /// `-lazy`: connect_with_connector_lazy, a failed call is retried once
+    lazy: bool,
+    /// `-x2`: every client connects twice from the same Endpoint (the second handshake resumes)
+    twice: bool,
+    /// `-par`: all clients run concurrently against the one server
+    par: bool,
+    /// `-native`: `Endpoint::connect()` / `connect_lazy()` with tonic's own HttpConnector to
+    /// `127.0.0.1:<port>` of a recording loopback proxy in front of the server (URI host `ip`)
+    native: bool,
+    /// `-cto`: a connect_timeout is set (the connector is wrapped in a TimeoutConnector)
+    cto: bool,
+}
+
+fn parse(case: &str) -> Option<Case> {
+    let t: Vec<&str> = case.split(' ').filter(|s| !s.is_empty()).collect();
+    if t.len() < 8 || t[0] != "tls" {
+        return None;
+    }
+    let semi = t.iter().position(|x| *x == ";")?;
+    if semi < 3 || t.len() != semi + 5 {
+        return None;
+    }
+    let mut clients = Vec::new();
+    for part in t[1..semi].split(|x| *x == "|") {
+        if part.len() < 2 || !matches!(part[0], "https" | "http" | "HTTPS" | "https+ohttp" | "http+ohttps") {
+            return None;
+        }
+        clients.push(ClientSpec {
+            scheme: part[0].into(),
+            urihost: part[1].into(),
+            ops: part[2..].iter().map(|s| s.to_string()).collect(),
+        });
+    }
+    let mut tr = t[semi + 4].split('-');
+    let base = tr.next()?.to_string();
+    if base != "tcp" && base != "duplex" {
+        return None;
+    }
+    let (mut lazy, mut twice, mut par, mut native, mut cto) = (false, false, false, false, false);
+    for f in tr {
+        match f {
+            "lazy" => lazy = true,
+            "x2" => twice = true,
+            "par" => par = true,
+            "native" => native = true,
+            "cto" => cto = true,
+            _ => return None,
+        }
+    }
+    if native && clients.iter().any(|c| c.urihost != "ip") {
+        return None;
+    }
+    Some(Case {
+        clients,
+        servercert: t[semi + 1].into(),
+        alpn: t[semi + 2].into(),
+        sops: if t[semi + 3] == "-" { Vec::new() } else { t[semi + 3].split('+').map(|s| s.to_string()).collect() },
+        base,
+        lazy,
+        twice,
+        par,
+        native,
+        cto,
+    })
+}
+
+/// Applies the builder calls in order; returns the config (None = `notls`) and the identity the
+/// client ends up presenting as far as the *harness* can tell syntactically (last `id:` op; the
+/// model decides what survives `roots`).
+fn anchor(name: &str) -> Option<rustls::pki_types::TrustAnchor<'static>> {
+    // RootCertStore::add does the webpki conversion; `roots` is its public field
+    let mut st = rustls::RootCertStore::empty();
+    for d in ders(cert_pem(name)?) {
+        st.add(CertificateDer::from(d)).ok()?;
+    }
+    st.roots.into_iter().next()
+}
+
+fn build_client_cfg(ops: &[String]) -> Option<Option<ClientTlsConfig>> {
+    if ops.len() == 1 && (ops[0] == "notls" || ops[0] == "auto") {
+        return Some(None);
+    }
+    let mut cfg = ClientTlsConfig::new();
+    for op in ops {
+        if let Some(n) = op.strip_prefix("ca:") {
+            cfg = cfg.ca_certificate(Certificate::from_pem(cert_pem(n)?));
+        } else if let Some(ns) = op.strip_prefix("cas:") {
+            let mut v = Vec::new();
+            for n in ns.split('+') {
+                v.push(Certificate::from_pem(cert_pem(n)?));
+            }
+            cfg = cfg.ca_certificates(v);
+        } else if let Some(n) = op.strip_prefix("ta:") {
+            cfg = cfg.trust_anchor(anchor(n)?);
+        } else if let Some(ns) = op.strip_prefix("tas:") {
+            let mut v = Vec::new();
+            for n in ns.split('+') {
+                v.push(anchor(n)?);
+            }
+            cfg = cfg.trust_anchors(v);
+        } else if let Some(d) = op.strip_prefix("dom:") {
+            cfg = cfg.domain_name(host_of(d)?);
+        } else if let Some(i) = op.strip_prefix("id:") {
+            cfg = cfg.identity(Identity::from_pem(cert_pem(i)?, key_pem(i)?));
+        } else if let Some(b) = op.strip_prefix("h2:") {
+            cfg = cfg.assume_http2(b == "1");
+        } else if op == "roots" {
+            cfg = cfg.with_enabled_roots();
+        } else {
+            return None;
+        }
+    }
+    Some(Some(cfg))
+}
+
+fn rustls_server_config(c: &Case) -> Result<rustls::ServerConfig, String> {
+    let provider = Arc::new(rustls::crypto::ring::default_provider());
+    let builder = rustls::ServerConfig::builder_with_provider(provider.clone())
+        .with_safe_default_protocol_versions()
+        .map_err(|e| e.to_string())?;
+    let mut ca: Option<&str> = None;
+    let mut optional = false;
+    for op in &c.sops {
+        if let Some(n) = op.strip_prefix("ca:") {
+            ca = Some(n);
+        } else if let Some(b) = op.strip_prefix("opt:") {
+            optional = b == "1";
+        }
+    }
+    let builder = match ca {
+        None => builder.with_no_client_auth(),
+        Some(n) => {
+            let mut roots = rustls::RootCertStore::empty();
+            for d in ders(cert_pem(n).ok_or("ca")?) {
+                roots.add(CertificateDer::from(d)).map_err(|e| e.to_string())?;
+            }
+            let vb = rustls::server::WebPkiClientVerifier::builder_with_provider(roots.into(), provider);
+            let vb = if optional { vb.allow_unauthenticated() } else { vb };
+            builder.with_client_cert_verifier(vb.build().map_err(|e| e.to_string())?)
+        }
+    };
+    let chain: Vec<CertificateDer<'static>> =
+        ders(cert_pem(&c.servercert).ok_or("cert")?).into_iter().map(CertificateDer::from).collect();
+    let key = PrivateKeyDer::from_pem_slice(key_pem(&c.servercert).ok_or("key")?.as_bytes()).map_err(|e| e.to_string())?;
+    let mut cfg = builder.with_single_cert(chain, key).map_err(|e| e.to_string())?;
+    match c.alpn.as_str() {
+        "none" => {}
+        "http11" => cfg.alpn_protocols.push(b"http/1.1".to_vec()),
+        "h2first" => {
+            cfg.alpn_protocols.push(b"h2".to_vec());
+            cfg.alpn_protocols.push(b"http/1.1".to_vec());
+        }
+        "h2last" => {
+            cfg.alpn_protocols.push(b"http/1.1".to_vec());
+            cfg.alpn_protocols.push(b"h2".to_vec());
+        }
+        "h2only" => cfg.alpn_protocols.push(b"h2".to_vec()),
+        _ => return Err("alpn".into()),
+    }
+    Ok(cfg)
+}
+
+fn classify_err(e: &(dyn std::error::Error + 'static)) -> String {
+    // walk the source chain, looking inside io::Error payloads as well
+    let mut texts = Vec::new();
+    let mut cur: Option<&(dyn std::error::Error + 'static)> = Some(e);
+    let mut depth = 0;
+    while let Some(err) = cur {
+        depth += 1;
+        if depth > 16 {
+            break;
+        }
+        texts.push(err.to_string());
+        if let Some(r) = err.downcast_ref::<rustls::Error>() {
+            return classify_rustls(r);
+        }
+        if let Some(ioe) = err.downcast_ref::<io::Error>() {
+            if let Some(inner) = ioe.get_ref() {
+                if let Some(r) = inner.downcast_ref::<rustls::Error>() {
+                    return classify_rustls(r);
+                }
+                cur = Some(inner);
+                continue;
+            }
+        }
+        cur = err.source();
+    }
+    let all = texts.join(" | ");
+    if all.contains("HTTP/2 was not negotiated") {
+        "h2-not-negotiated".into()
+    } else if all.contains("Connecting to HTTPS without TLS enabled") {
+        "https-without-tls".into()
+    } else {
+        format!("other<{}>", all.replace(' ', "_"))
+    }
+}
+
+fn classify_rustls(r: &rustls::Error) -> String {
+    use rustls::{AlertDescription as A, CertificateError as C, Error as E};
+    match r {
+        E::InvalidCertificate(C::UnknownIssuer) => "server-cert:unknown-issuer".into(),
+        E::InvalidCertificate(C::NotValidForName) => "server-cert:name-mismatch".into(),
+        E::InvalidCertificate(C::NotValidForNameContext { .. }) => "server-cert:name-mismatch".into(),
+        E::InvalidCertificate(o) => format!("server-cert:{:?}", o).replace(' ', "_"),
+        E::AlertReceived(A::NoApplicationProtocol) => "alpn-alert".into(),
+        E::AlertReceived(a) => format!("alert:{:?}", a),
+        o => format!("tls:{:?}", o).replace(' ', "_"),
+    }
+}
+
+type BoxErr = Box<dyn std::error::Error + Send + Sync>;
+
+trait Transport: AsyncRead + AsyncWrite + Connected + ExtCerts + Unpin + Send + Sized + 'static {
+    /// Returns a dial function and the stream of accepted server-side IOs.
+    fn pair() -> Pin<Box<dyn Future<Output = io::Result<(Dialer<Self>, tokio::sync::mpsc::Receiver<Self>)>> + Send>>;
+}
+type Dialer<IO> = Arc<dyn Fn() -> Pin<Box<dyn Future<Output = io::Result<IO>> + Send>> + Send + Sync>;
+
+impl Transport for tokio::net::TcpStream {
+    fn pair() -> Pin<Box<dyn Future<Output = io::Result<(Dialer<Self>, tokio::sync::mpsc::Receiver<Self>)>> + Send>> {
+        Box::pin(async {
+            let l = tokio::net::TcpListener::bind(("127.0.0.1", 0)).await?;
+            let addr = l.local_addr()?;
+            let (tx, rx) = tokio::sync::mpsc::channel(8);
+            tokio::spawn(async move {
+                loop {
+                    tokio::select! {
+                        _ = tx.closed() => break,
+                        a = l.accept() => match a {
+                            Ok((s, _)) => { let _ = s.set_nodelay(true); if tx.send(s).await.is_err() { break; } }
+                            Err(_) => break,
+                        }
+                    }
+                }
+            });
+            let d: Dialer<Self> = Arc::new(move || {
+                Box::pin(async move {
+                    let s = tokio::net::TcpStream::connect(addr).await?;
+                    let _ = s.set_nodelay(true);
+                    // closing the client side resets the connection instead of parking the
+                    // 4-tuple in TIME_WAIT: big runs would otherwise exhaust the loopback ports
+                    #[allow(deprecated)] // a zero linger never blocks
+                    let _ = s.set_linger(Some(Duration::ZERO));
+                    Ok(s)
+                })
+            });
+            Ok((d, rx))
+        })
+    }
+}
+
+impl Transport for tokio::io::DuplexStream {
+    fn pair() -> Pin<Box<dyn Future<Output = io::Result<(Dialer<Self>, tokio::sync::mpsc::Receiver<Self>)>> + Send>> {
+        Box::pin(async {
+            let (tx, rx) = tokio::sync::mpsc::channel(8);
+            let d: Dialer<Self> = Arc::new(move || {
+                let tx = tx.clone();
+                Box::pin(async move {
+                    let (a, b) = tokio::io::duplex(1 << 16);
+                    tx.send(b).await.map_err(|_| io::Error::new(io::ErrorKind::ConnectionRefused, "server gone"))?;
+                    Ok(a)
+                })
+            });
+            Ok((d, rx))
+        })
+    }
+}
+
+fn rx_stream<T: Send + 'static>(rx: tokio::sync::mpsc::Receiver<T>) -> impl tokio_stream::Stream<Item = Result<T, io::Error>> {
+    use tokio_stream::StreamExt;
+    tokio_stream::wrappers::ReceiverStream::new(rx).map(Ok)
+}
+
+struct ClientOut {
+    cfg_state: String,
+    res: String,
+    plain: bool,
+    dialed: bool,
+}
+
+/// One client: build the Endpoint through the public API, connect through a connector that dials
+/// the case's server and taps the bytes, make one unary call (twice over with `-x2`).
+#[derive(Clone, Copy)]
+struct Mode {
+    lazy: bool,
+    twice: bool,
+    native: bool,
+    cto: bool,
+}
+
+/// A loopback TCP proxy in front of the case's server, for the runs that use tonic's own
+/// HttpConnector: records what the client writes and counts connections.
+async fn start_proxy<IO: Transport>(dial: Dialer<IO>, log: Arc<Mutex<TapLog>>, dials: Arc<AtomicUsize>) -> io::Result<u16> {
+    use tokio::io::{AsyncReadExt, AsyncWriteExt};
+    let l = tokio::net::TcpListener::bind(("127.0.0.1", 0)).await?;
+    let port = l.local_addr()?.port();
+    tokio::spawn(async move {
+        while let Ok((a, _)) = l.accept().await {
+            let _ = a.set_nodelay(true);
+            dials.fetch_add(1, Ordering::SeqCst);
+            let dial = dial.clone();
+            let log = log.clone();
+            tokio::spawn(async move {
+                let Ok(b) = dial().await else { return };
+                let (mut ar, mut aw) = tokio::io::split(a);
+                let (mut br, mut bw) = tokio::io::split(b);
+                let up = async move {
+                    let mut buf = vec![0u8; 16384];
+                    loop {
+                        match ar.read(&mut buf).await {
+                            Ok(0) | Err(_) => break,
+                            Ok(n) => {
+                                {
+                                    let mut l = log.lock().unwrap();
+                                    if l.written.len() < (1 << 20) {
+                                        l.written.extend_from_slice(&buf[..n]);
+                                    }
+                                }
+                                if bw.write_all(&buf[..n]).await.is_err() {
+                                    break;
+                                }
+                            }
+                        }
+                    }
+                    let _ = bw.shutdown().await;
+                };
+                let down = async move {
+                    let _ = tokio::io::copy(&mut br, &mut aw).await;
+                    let _ = aw.shutdown().await;
+                };
+                tokio::join!(up, down);
+            });
+        }
+    });
+    Ok(port)
+}
+
+async fn run_client<IO: Transport>(idx: usize, spec: ClientSpec, dial: Dialer<IO>, mode: Mode) -> ClientOut {
+    let Mode { lazy, twice, native, cto } = mode;
+    let bad = |why: &str| ClientOut { cfg_state: "ok".into(), res: format!("fail:{}", why), plain: false, dialed: false };
+    let log = Arc::new(Mutex::new(TapLog::default()));
+    let dials = Arc::new(AtomicUsize::new(0));
+    let Some(host) = host_of(&spec.urihost) else { return bad("bad-case") };
+    // `<scheme>+o<scheme2>`: endpoint URI with <scheme>, plus `Endpoint::origin(<scheme2>://…)`
+    let (scheme, origin) = match spec.scheme.split_once("+o") {
+        Some((s, o)) => (s, Some(format!("{}://{}:50051", o, host))),
+        None => (spec.scheme.as_str(), None),
+    };
+    let port = if native {
+        match start_proxy::<IO>(dial.clone(), log.clone(), dials.clone()).await {
+            Ok(p) => p,
+            Err(_) => return bad("harness-error-proxy"),
+        }
+    } else {
+        50051
+    };
+    let uri = format!("{}://{}:{}", scheme, host, port);
+    let with_origin = move |ep: Endpoint| {
+        let ep = match &origin {
+            Some(o) => ep.origin(o.parse().unwrap()),
+            None => ep,
+        };
+        if cto {
+            ep.connect_timeout(Duration::from_secs(10))
+        } else {
+            ep
+        }
+    };
+    let mut cfg_state = "ok".to_string();
+    let ep = if spec.ops.len() == 1 && spec.ops[0] == "auto" {
+        // the entry point generated `connect` functions use
+        match Endpoint::new(uri) {
+            Ok(e) => Some(with_origin(e)),
+            Err(e) => {
+                cfg_state = format!("err:{}", classify_cfg_err(&e));
+                None
+            }
+        }
+    } else {
+        let ep = match Endpoint::from_shared(uri) {
+            Ok(e) => e,
+            Err(_) => return bad("bad-case"),
+        };
+        match build_client_cfg(&spec.ops) {
+            None => return bad("bad-case"),
+            Some(None) => Some(with_origin(ep)),
+            Some(Some(t)) => match ep.tls_config(t) {
+                Ok(e) => Some(with_origin(e)),
+                Err(e) => {
+                    cfg_state = format!("err:{}", classify_cfg_err(&e));
+                    None
+                }
+            },
+        }
+    };
+    let mut res = "fail:config".to_string();
+    if let Some(ep) = ep {
+        let rounds = if twice { 2 } else { 1 };
+        let mut results = Vec::new();
+        for _ in 0..rounds {
+            let connector = {
+                let log = log.clone();
+                let dials = dials.clone();
+                let dial = dial.clone();
+                tower::service_fn(move |_uri: http::Uri| {
+                    let log = log.clone();
+                    let dial = dial.clone();
+                    dials.fetch_add(1, Ordering::SeqCst);
+                    async move {
+                        let io = dial().await?;
+                        Ok::<_, BoxErr>(hyper_util::rt::TokioIo::new(Tap { inner: io, log }))
+                    }
+                })
+            };
+            let ch = match (native, lazy) {
+                (false, true) => Ok(ep.connect_with_connector_lazy(connector)),
+                (false, false) => ep.connect_with_connector(connector).await,
+                // tonic's own HttpConnector, through the recording proxy
+                (true, true) => Ok(ep.connect_lazy()),
+                (true, false) => ep.connect().await,
+            };
+            let r = match ch {
+                Err(e) => format!("fail:{}", classify_err(&e)),
+                Ok(ch) => {
+                    let mut grpc = tonic::client::Grpc::new(ch);
+                    let first = one_call(&mut grpc, idx).await;
+                    if lazy && first != "ok" {
+                        // a lazily connected channel dials again for the next call: it must fail
+                        // the same way (no fallback on retry)
+                        let second = one_call(&mut grpc, idx).await;
+                        if canonical_res(&second) != canonical_res(&first) {
+                            format!("fail:retry-differs<{}|{}>", canonical_res(&first), canonical_res(&second))
+                        } else {
+                            first
+                        }
+                    } else {
+                        first
+                    }
+                }
+            };
+            results.push(r);
+        }
+        res = results[0].clone();
+        if results.len() == 2 && canonical_res(&results[1]) != canonical_res(&results[0]) {
+            res = format!("fail:second-connection-differs<{}|{}>", canonical_res(&results[0]), canonical_res(&results[1]));
+        }
+    }
+    if native && cfg_state == "ok" {
+        // the proxy learns about a connection only when its accept task runs; give it a turn
+        for _ in 0..50 {
+            if dials.load(Ordering::SeqCst) > 0 {
+                break;
+            }
+            tokio::time::sleep(Duration::from_millis(2)).await;
+        }
+    }
+    let l = log.lock().unwrap();
+    let plain = contains(&l.written, H2_PREFACE) || contains(&l.written, MARKER.as_bytes());
+    ClientOut { cfg_state, res, plain, dialed: dials.load(Ordering::SeqCst) > 0 }
+}
+
+async fn run_case<IO: Transport>(c: Case) -> String {
+    let obs = Arc::new(Obs::default());
+    // what each client will present, syntactically: its last id: op (`presented` is only used to
+    // compare contents when certificates are seen; the model decides what is seen)
+    let presented: Vec<Vec<Vec<u8>>> = c
+        .clients
+        .iter()
+        .map(|cl| {
+            let mut p = Vec::new();
+            for op in &cl.ops {
+                if let Some(i) = op.strip_prefix("id:") {
+                    p = cert_pem(i).map(ders).unwrap_or_default();
+                }
+            }
+            p
+        })
+        .collect();
+    let svc: Svc<IO> = Svc { obs: obs.clone(), presented: Arc::new(presented), _io: Default::default() };
+
+    let (dial, rx) = match IO::pair().await {
+        Ok(p) => p,
+        Err(e) => return format!("harness-error:bind:{}", e.kind()),
+    };
+    let (stop_tx, stop_rx) = tokio::sync::oneshot::channel::<()>();
+    let stop = async move {
+        let _ = stop_rx.await;
+    };
+
+    // ---- server
+    let server_task: tokio::task::JoinHandle<Result<(), String>> = match c.alpn.as_str() {
+        "h2" => {
+            let id = Identity::from_pem(cert_pem(&c.servercert).unwrap_or(""), key_pem(&c.servercert).unwrap_or(""));
+            let mut tls = ServerTlsConfig::new().identity(id);
+            for op in &c.sops {
+                if let Some(n) = op.strip_prefix("ca:") {
+                    tls = tls.client_ca_root(Certificate::from_pem(match cert_pem(n) {
+                        Some(p) => p,
+                        None => return "bad-case".into(),
+                    }));
+                } else if let Some(b) = op.strip_prefix("opt:") {
+                    tls = tls.client_auth_optional(b == "1");
+                } else if let Some(b) = op.strip_prefix("ico:") {
+                    tls = tls.ignore_client_order(b == "1");
+                } else {
+                    return "bad-case".into();
+                }
+            }
+            let mut b = match Server::builder().tls_config(tls) {
+                Ok(b) => b,
+                Err(e) => return format!("harness-error:server-tls-config:{}", classify_err(&e)),
+            };
+            let router = b.add_service(svc);
+            tokio::spawn(async move { router.serve_with_incoming_shutdown(rx_stream(rx), stop).await.map_err(|e| e.to_string()) })
+        }
+        "plain" => {
+            // a plaintext HTTP/2 server: anything a client sends in the clear would be served
+            let router = Server::builder().add_service(svc);
+            tokio::spawn(async move { router.serve_with_incoming_shutdown(rx_stream(rx), stop).await.map_err(|e| e.to_string()) })
+        }
+        _ => {
+            let cfg = match rustls_server_config(&c) {
+                Ok(c) => Arc::new(c),
+                Err(e) => return format!("harness-error:rustls-server-config:{}", e.replace(' ', "_")),
+            };
+            let acceptor = tokio_rustls::TlsAcceptor::from(cfg);
+            let (ttx, trx) = tokio::sync::mpsc::channel::<tokio_rustls::server::TlsStream<IO>>(8);
+            let mut rx = rx;
+            tokio::spawn(async move {
+                while let Some(io) = rx.recv().await {
+                    let acceptor = acceptor.clone();
+                    let ttx = ttx.clone();
+                    tokio::spawn(async move {
+                        if let Ok(s) = acceptor.accept(io).await {
+                            let _ = ttx.send(s).await;
+                        }
+                    });
+                }
+            });
+            // Svc<IO> looks up TlsConnectInfo<IO::ConnectInfo>, which is what TlsStream<IO> yields
+            let router = Server::builder().add_service(svc);
+            tokio::spawn(async move { router.serve_with_incoming_shutdown(rx_stream(trx), stop).await.map_err(|e| e.to_string()) })
+        }
+    };
+
+    // ---- clients, one after the other or all at once, against the one server
+    let mode = Mode { lazy: c.lazy, twice: c.twice, native: c.native, cto: c.cto };
+    let mut outs: Vec<ClientOut> = Vec::new();
+    if c.par {
+        let handles: Vec<_> = c
+            .clients
+            .iter()
+            .cloned()
+            .enumerate()
+            .map(|(i, spec)| tokio::spawn(run_client::<IO>(i, spec, dial.clone(), mode)))
+            .collect();
+        for h in handles {
+            outs.push(match h.await {
+                Ok(o) => o,
+                Err(_) => ClientOut { cfg_state: "ok".into(), res: "fail:client-panicked".into(), plain: false, dialed: false },
+            });
+        }
+    } else {
+        for (i, spec) in c.clients.iter().cloned().enumerate() {
+            outs.push(run_client::<IO>(i, spec, dial.clone(), mode).await);
+        }
+    }
+    // let the server finish whatever it is doing with these connections
+    let _ = stop_tx.send(());
+    drop(dial);
+    let _ = tokio::time::timeout(Duration::from_secs(5), server_task).await;
+
+    let runs = obs.runs.lock().unwrap();
+    let mut parts = Vec::new();
+    for (i, o) in outs.iter().enumerate() {
+        let mine: Vec<&String> = runs.iter().filter(|(j, _)| *j == i).map(|(_, s)| s).collect();
+        let mut uniq: Vec<&String> = Vec::new();
+        for m in &mine {
+            if !uniq.contains(m) {
+                uniq.push(m);
+            }
+        }
+        let peer_s = if uniq.is_empty() {
+            "peer=- ext=-".to_string()
+        } else {
+            uniq.iter().map(|s| s.as_str()).collect::<Vec<_>>().join(",")
+        };
+        parts.push(format!(
+            "res={} cfg={} h={} {} plain={} dial={}",
+            canonical_res(&o.res),
+            o.cfg_state,
+            mine.len(),
+            peer_s,
+            o.plain as u8,
+            o.dialed as u8
+        ));
+    }
+    let stray = runs.iter().filter(|(j, _)| *j >= outs.len()).count();
+    if stray > 0 {
+        parts.push(format!("stray-handler-runs={}", stray));
+    }
+    parts.join(" | ")
+}
+
+/// Failure classes the model speaks about. A failure that surfaces only after tonic's own
+/// client-side checks passed (TLS 1.3: the server judges the client certificate after the
+/// client side of the handshake is complete, so it shows up as an alert / reset / cancelled
+/// call, timing-dependent) is the single class `rejected`.
+fn canonical_res(res: &str) -> String {
+    if std::env::var("VERIF_C15_DEBUG").is_ok() {
+        return res.to_string();
+    }
+    let Some(class) = res.strip_prefix("fail:") else {
+        return res.to_string();
+    };
+    let c = match class {
+        x if x.starts_with("retry-differs") || x.starts_with("second-connection-differs") => x,
+        "config" | "https-without-tls" | "alpn-alert" | "h2-not-negotiated" | "wrong-reply"
+        | "server-cert:unknown-issuer" | "server-cert:name-mismatch" => class,
+        x if x.starts_with("server-cert:") => "server-cert:other",
+        x if x.starts_with("tls:") => "tls-error",
+        _ => "rejected",
+    };
+    format!("fail:{}", c)
+}
+
+async fn one_call(grpc: &mut tonic::client::Grpc<tonic::transport::Channel>, idx: usize) -> String {
+    match grpc.ready().await {
+        Err(e) => format!("fail:{}", classify_err(&e)),
+        Ok(()) => {
+            let path = http::uri::PathAndQuery::from_static("/verif.Tls/Call");
+            let codec = tonic::codec::ProstCodec::<String, String>::default();
+            match grpc.unary(tonic::Request::new(payload(idx)), path, codec).await {
+                Ok(r) if r.get_ref() == &format!("echo:{}", payload(idx)) => "ok".into(),
+                Ok(_) => "fail:wrong-reply".into(),
+                Err(st) => format!("fail:{}", classify_status(&st)),
+            }
+        }
+    }
+}
+
+fn classify_cfg_err(e: &(dyn std::error::Error + 'static)) -> String {
+    let mut texts = vec![e.to_string()];
+    let mut cur = e.source();
+    while let Some(s) = cur {
+        texts.push(s.to_string());
+        cur = s.source();
+    }
+    let all = texts.join(" | ");
+    if all.contains("invalid dns name") || all.contains("InvalidDnsName") {
+        "invalid-dns-name".into()
+    } else if all.contains("Error parsing TLS certificate") {
+        "cert-parse".into()
+    } else if all.contains("Error parsing TLS private key") {
+        "key-parse".into()
+    } else {
+        format!("other<{}>", all.replace(' ', "_"))
+    }
+}
+
+fn classify_status(st: &tonic::Status) -> String {
+    use std::error::Error;
+    if let Some(src) = st.source() {
+        let c = classify_err(src);
+        if !c.starts_with("other<") {
+            return c;
+        }
+    }
+    if std::env::var("VERIF_C15_DEBUG").is_ok() {
+        return format!("status:{:?}<{:?}>", st.code(), st).replace(' ', "_");
+    }
+    format!("status:{:?}", st.code())
+}
+
+/// `srvcfg <op>+<op>…` — only `Server::builder().tls_config(..)`: `ok` / `err:<class>` (a
+/// missing identity panics inside tonic: the observable `panic`, via `catch_unwind`).
+fn srvcfg(ops: &str) -> String {
+    let mut tls = ServerTlsConfig::new();
+    for op in ops.split('+') {
+        if op == "-" {
+            continue;
+        } else if let Some(n) = op.strip_prefix("id:") {
+            let (Some(c), Some(k)) = (cert_pem(n), key_pem(n)) else { return "bad-case".into() };
+            tls = tls.identity(Identity::from_pem(c, k));
+        } else if let Some(n) = op.strip_prefix("ca:") {
+            let Some(c) = cert_pem(n) else { return "bad-case".into() };
+            tls = tls.client_ca_root(Certificate::from_pem(c));
+        } else if let Some(b) = op.strip_prefix("opt:") {
+            tls = tls.client_auth_optional(b == "1");
+        } else if let Some(b) = op.strip_prefix("ico:") {
+            tls = tls.ignore_client_order(b == "1");
+        } else {
+            return "bad-case".into();
+        }
+    }
+    match Server::builder().tls_config(tls) {
+        Ok(_) => "ok".into(),
+        Err(e) => {
+            let mut texts = vec![e.to_string()];
+            let mut cur = std::error::Error::source(&e);
+            while let Some(s) = cur {
+                texts.push(format!("{} / {:?}", s, s));
+                cur = s.source();
+            }
+            let all = texts.join(" | ");
+            if all.contains("Error parsing TLS certificate") {
+                "err:cert-parse".into()
+            } else if all.contains("Error parsing TLS private key") {
+                "err:key-parse".into()
+            } else if all.contains("NoRootAnchors") {
+                "err:no-root-anchors".into()
+            } else {
+                format!("err:other<{}>", all.replace(' ', "_"))
+            }
+        }
+    }
+}
+
+pub fn execute(case: &str) -> String {
+    if let Some(ops) = case.strip_prefix("srvcfg ") {
+        return srvcfg(ops.trim());
+    }
+    let c = match parse(case) {
+        Some(c) => c,
+        None => return "bad-case".into(),
+    };
+    let rt = tokio::runtime::Builder::new_current_thread().enable_all().build().unwrap();
+    let out = rt.block_on(async move {
+        let fut: Pin<Box<dyn Future<Output = String> + Send>> = match c.base.as_str() {
+            "tcp" => Box::pin(run_case::<tokio::net::TcpStream>(c)),
+            _ => Box::pin(run_case::<tokio::io::DuplexStream>(c)),
+        };
+        match tokio::time::timeout(Duration::from_secs(20), fut).await {
+            Ok(s) => s,
+            Err(_) => "hang".into(),
+        }
+    });
+    rt.shutdown_timeout(Duration::from_millis(200));
+    out
+}
+
+/// Witnesses of earlier findings and hand-picked boundary configurations; always run first.
+const CORPUS: &[&str] = &[
+    // fixed: with_enabled_roots() forgot everything configured before it (0.13.0): the configured
+    // name `bad.test` was dropped and the URI host verified instead => connected
+    "tls https good dom:bad roots ca:ca1 ; s1good h2 - tcp",
+    "tls https good ca:ca1 dom:bad roots ; s1good h2 - tcp",
+    "tls https bad dom:good roots ca:ca1 ; s1good h2 - tcp",
+    "tls https good ca:ca1 id:c1 roots ; s1good h2 ca:ca1 tcp",
+    "tls https good ca:ca1 h2:1 roots ; s1good none - tcp",
+    "tls https good roots ; s1good h2 - tcp",
+    // no TLS configuration at all / generated-code entry point
+    "tls https good notls ; s1good h2 - tcp",
+    "tls https good notls ; s1good plain - tcp",
+    "tls https good notls ; s1good plain - duplex-lazy",
+    "tls https good auto ; s1good h2 - tcp",
+    "tls https good auto ; s1good plain - tcp",
+    "tls http good auto ; s1good plain - tcp",
+    "tls HTTPS good notls ; s1good plain - tcp",
+    "tls HTTPS good ca:ca1 ; s1good h2 - tcp",
+    // Endpoint::origin does not decide about TLS
+    "tls https+ohttp good notls ; s1good plain - tcp",
+    "tls https+ohttp good ca:ca1 ; s1good h2 - tcp",
+    "tls http+ohttps good ca:ca1 ; s1good plain - tcp",
+    // https client against a plaintext server and the reverse
+    "tls https good ca:ca1 h2:1 ; s1good plain - tcp",
+    "tls https good ca:ca1 h2:1 ; s1good plain - duplex",
+    "tls http good ca:ca1 ; s1good h2 - tcp",
+    "tls http good notls ; s1good plain - tcp",
+    // ALPN variants
+    "tls https good ca:ca1 ; s1good h2first - tcp",
+    "tls https good ca:ca1 ; s1good h2last - tcp",
+    "tls https good ca:ca1 ; s1good h2only - tcp",
+    "tls https good ca:ca1 h2:1 ; s1good http11 - tcp",
+    "tls https good ca:ca1 h2:1 h2:0 ; s1good none - tcp",
+    "tls https good ca:ca1 h2:0 h2:1 ; s1good none - tcp",
+    // name from the URI / configured name wins / IP names
+    "tls https bad ca:ca1 dom:good ; s1good h2 - tcp",
+    "tls https good ca:ca1 dom:bad dom:good ; s1good h2 - tcp",
+    "tls https good ca:ca1 dom:good dom:bad ; s1good h2 - tcp",
+    "tls https other ca:ca1 ; s1bad h2 - tcp",
+    "tls https ip ca:ca1 ; s1ip h2 - tcp",
+    "tls https ip ca:ca1 ; s1good h2 - tcp",
+    "tls https good ca:ca1 dom:ip ; s1ip h2 - tcp",
+    // roots: accumulate, junk adds nothing, trust anchors, intermediate as anchor is not a root of s1good
+    "tls https good ca:ca2 ca:ca1 ; s1good h2 - tcp",
+    "tls https good cas:ca2+junk ; s1good h2 - tcp",
+    "tls https good cas:ca2+ca1 ; s2good h2 - tcp",
+    "tls https good ta:ca1 ; s1good h2 - tcp",
+    "tls https good tas:ca2+ca1 ta:ca2 ; s1good h2 - tcp",
+    "tls https good ca:ica1 ; s1good h2 - tcp",
+    "tls https good ; s1good h2 - tcp",
+    // configuration errors, in the order the code meets them
+    "tls https good ca:ca1 dom:invalid ; s1good h2 - tcp",
+    "tls https good ca:broken dom:invalid ; s1good h2 - tcp",
+    "tls https good ca:ca1 ca:broken ; s1good h2 - tcp",
+    "tls https good ca:ca1 id:brokencert dom:invalid ; s1good h2 - tcp",
+    "tls https good ca:ca1 id:nokey dom:invalid ; s1good h2 - tcp",
+    "tls https good ca:ca1 id:nokey id:c1 ; s1good h2 ca:ca1 tcp",
+    // mTLS: chains, last client_ca_root wins, optional without a CA, optional then required
+    "tls https good ca:ca1 id:c1chain ; s1good h2 ca:ca1 tcp",
+    "tls https good ca:ca1 id:c1chain ; s1good h2 ca:ca1 duplex",
+    "tls https good ca:ca1 id:c1chain ; s1good none ca:ca1 tcp",
+    "tls https good ca:ca1 id:c1chain h2:1 ; s1good none ca:ca1 duplex",
+    "tls https good ca:ca1 id:c1chain ; s1good h2 ca:ica1 tcp",
+    "tls https good ca:ca1 id:c1 ; s1good h2 ca:ica1 tcp",
+    "tls https good ca:ca1 id:c1 ; s1good h2 ca:ca1+ca:ca2 tcp",
+    "tls https good ca:ca1 id:c2 ; s1good h2 ca:ca1+ca:ca2 tcp",
+    "tls https good ca:ca1 ; s1good h2 opt:1 tcp",
+    "tls https good ca:ca1 id:c2 ; s1good h2 opt:1 tcp",
+    "tls https good ca:ca1 ; s1good h2 ca:ca1+opt:1+opt:0 tcp",
+    "tls https good ca:ca1 ; s1good h2 opt:0+ca:ca1+opt:1+ico:1 tcp",
+    "tls https good ca:ca1 id:c2 ; s1good h2 ca:ca1+opt:1 tcp",
+    "tls https good ca:ca1 id:c1 id:c2 ; s1good h2 ca:ca1 tcp",
+    "tls https good ca:ca1 id:c2 id:c1 ; s1good h2 ca:ca1 tcp",
+    // several clients on one server: a rejected handshake neither stops the accept loop nor
+    // opens the door for the next client; resumed sessions keep the peer certificates
+    "tls https good ca:ca1 | https good ca:ca1 id:c1 | https good ca:ca1 id:c2 | https good ca:ca1 id:c1chain ; s1good h2 ca:ca1 tcp",
+    "tls https good ca:ca1 | https good ca:ca1 id:c1 | https good ca:ca1 id:c2 | https good ca:ca1 id:c1chain ; s1good h2 ca:ca1 tcp-par",
+    "tls https good ca:ca1 id:c2 | https good ca:ca2 id:c1 | https good ca:ca1 id:c1 | http good notls | https bad ca:ca1 id:c1 | https good ca:ca1 id:c1chain ; s1good h2 ca:ca1+opt:1 duplex-par-x2",
+    "tls https good ca:ca1 id:c2 | https good ca:ca1 id:c1 | https good notls | https good ca:ca1 ; s1good h2last ca:ca1 duplex-lazy-par",
+    "tls https good ca:ca1 id:c1 ; s1good h2 ca:ca1 tcp-x2",
+    // tonic's own HttpConnector (Endpoint::connect / connect_lazy), connect_timeout set
+    "tls https ip ca:ca1 ; s1ip h2 - tcp-native",
+    "tls https ip notls ; s1ip plain - tcp-native",
+    "tls https ip notls ; s1ip plain - tcp-native-lazy",
+    "tls https ip auto ; s1ip plain - tcp-native",
+    "tls https ip ca:ca1 ; s1ip none - tcp-native-lazy",
+    "tls https ip ca:ca1 id:c2 | https ip ca:ca1 id:c1 | https ip ca:ca1 ; s1ip h2 ca:ca1 tcp-native-par",
+    "tls https good ca:ca2 ; s1good h2 - tcp-cto-lazy",
+    "tls https good ca:ca1 id:c1chain ; s1good h2 ca:ca1+opt:1 duplex-x2",
+    "tls http good notls | https good ca:ca1 | http good notls ; s1good h2 - tcp",
+    "tls https good notls | http good notls | https good ca:ca1 h2:1 ; s1good plain - tcp-par",
+    // server configuration alone
+    "srvcfg -",
+    "srvcfg ca:ca1",
+    "srvcfg id:s1good",
+    "srvcfg id:s1good+ca:junk",
+    "srvcfg id:s1good+ca:broken",
+    "srvcfg id:brokencert+ca:broken",
+    "srvcfg id:nokey+ca:junk",
+    "srvcfg id:nokey",
+    "srvcfg id:nokey+id:s1good+ca:junk+ca:ca2+opt:1",
+];
+
+fn join_ops(ops: &[String]) -> String {
+    ops.iter().filter(|s| !s.is_empty()).cloned().collect::<Vec<_>>().join(" ")
+}
+
+/// The property's own matrix: roots {right CA, other CA, none} x domain {matching, non-matching,
+/// from URI} x server ALPN {h2, none, http/1.1} x assume_http2 x client-auth {none, required,
+/// optional} x client identity {none, valid, other CA} = 486 configurations.
+fn matrix(transport: &str, out: &mut Vec<String>) {
+    for roots in ["ca:ca1", "ca:ca2", ""] {
+        for dom in ["dom:good", "dom:bad", ""] {
+            for alpn in ["h2", "none", "http11"] {
+                for assume in ["h2:0", "h2:1"] {
+                    for cauth in ["-", "ca:ca1", "ca:ca1+opt:1"] {
+                        for id in ["", "id:c1", "id:c2"] {
+                            let ops: Vec<String> = [roots, dom, id, assume].iter().map(|s| s.to_string()).collect();
+                            out.push(format!("tls https good {} ; s1good {} {} {}", join_ops(&ops), alpn, cauth, transport));
+                        }
+                    }
+                }
+            }
+        }
+    }
+}
+
+const TRANSPORTS: [&str; 4] = ["tcp", "duplex", "tcp-lazy", "duplex-lazy"];
+const SERVER_CERTS: [&str; 4] = ["s1good", "s1bad", "s2good", "s1ip"];
+const ALPNS: [&str; 7] = ["h2", "h2", "none", "http11", "h2first", "h2last", "h2only"];
+const SRV_OPS: [&str; 14] = [
+    "-", "-", "ca:ca1", "ca:ca1+opt:1", "ca:ca2", "ca:ca2+opt:1", "opt:1", "ca:ica1", "opt:1+ca:ca1",
+    "ca:ca1+opt:1+opt:0", "ca:ca2+ca:ca1", "ca:ca1+ca:ca2+opt:1", "ico:1+ca:ca1", "ca:ica1+opt:1",
+];
+
+fn issuer_of(servercert: &str) -> &'static str {
+    if servercert == "s2good" { "ca2" } else { "ca1" }
+}
+fn a_name_of(servercert: &str, rng: &mut Rng) -> &'static str {
+    match servercert {
+        "s1bad" => "other",
+        "s1ip" => if rng.chance(1, 2) { "ip" } else { "good" },
+        _ => "good",
+    }
+}
+
+fn random_client_op(rng: &mut Rng, rare: bool) -> String {
+    match rng.below(if rare { 14 } else { 11 }) {
+        0 | 1 => format!("ca:{}", rng.pick(&["ca1", "ca2", "ica1", "junk"])),
+        2 => format!("cas:{}+{}", rng.pick(&["ca1", "ca2", "junk"]), rng.pick(&["ca1", "ca2", "ica1"])),
+        3 => format!("ta:{}", rng.pick(&["ca1", "ca2"])),
+        4 => format!("tas:{}+{}", rng.pick(&["ca1", "ca2"]), rng.pick(&["ca1", "ca2", "ica1"])),
+        5 | 6 => format!("dom:{}", rng.pick(&["good", "bad", "other", "ip"])),
+        7 | 8 => format!("id:{}", rng.pick(&["c1", "c2", "c1chain"])),
+        9 => format!("h2:{}", rng.below(2)),
+        10 => "roots".to_string(),
+        11 => format!("ca:{}", "broken"),
+        12 => format!("id:{}", rng.pick(&["brokencert", "nokey"])),
+        _ => "dom:invalid".to_string(),
+    }
+}
+
+/// A random sequence of builder calls. With `aim_ok` the sequence is steered towards a
+/// configuration that should connect to `servercert` (right CA somewhere, a matching name last
+/// or none with a matching URI host), with overriding / neutral calls sprinkled around it —
+/// that is where a "last call wins / roots accumulate" bug would hide.
+fn random_ops(rng: &mut Rng, servercert: &str, aim_ok: bool, urihost: &mut &'static str) -> Vec<String> {
+    let n = rng.below(7) as usize;
+    let rare = rng.chance(1, 12);
+    let mut ops: Vec<String> = (0..n).map(|_| random_client_op(rng, rare)).collect();
+    if aim_ok {
+        let ca = issuer_of(servercert);
+        let form = match rng.below(4) {
+            0 => format!("ca:{}", ca),
+            1 => format!("cas:junk+{}", ca),
+            2 => format!("ta:{}", ca),
+            _ => format!("cas:{}+{}", ca, rng.pick(&["ca1", "ca2"])),
+        };
+        let pos = rng.below(ops.len() as u64 + 1) as usize;
+        ops.insert(pos, form);
+        let name = a_name_of(servercert, rng);
+        if rng.chance(1, 2) {
+            ops.push(format!("dom:{}", name));
+            // trailing neutral calls after the decisive one
+            if rng.chance(1, 3) {
+                ops.push(format!("h2:{}", rng.below(2)));
+            }
+            if rng.chance(1, 4) {
+                ops.push("roots".into());
+            }
+        } else {
+            ops.retain(|o| !o.starts_with("dom:"));
+            *urihost = name;
+        }
+    }
+    ops
+}
+
+pub fn generate(tier: &str, rng: &mut Rng) -> Vec<String> {
+    let thorough = tier == "thorough";
+    let mut out: Vec<String> = CORPUS.iter().map(|s| s.to_string()).collect();
+
+    // the property's matrix, exhaustively, over real TCP and over the in-memory pipe; thorough
+    // also through lazily connected channels
+    matrix("tcp", &mut out);
+    matrix("duplex", &mut out);
+    if thorough {
+        matrix("tcp-lazy", &mut out);
+        matrix("duplex-lazy", &mut out);
+    }
+
+    // the matrix again with every dimension realised a second, independent way: the server
+    // presents the other certificate instead of the client trusting the other CA; the name
+    // mismatch comes from the certificate / the URI host instead of the configured name
+    for servercert in SERVER_CERTS {
+        for (urihost, dom) in [("good", ""), ("bad", ""), ("other", ""), ("ip", ""), ("bad", "dom:good"), ("good", "dom:other"), ("good", "dom:ip")] {
+            for roots in ["ca:ca1", "ca:ca2", "cas:ca1+ca2", "ta:ca1", "ca:junk"] {
+                for (alpn, assume) in [("h2", "h2:0"), ("none", "h2:1"), ("none", ""), ("h2last", "")] {
+                    let ops: Vec<String> = [roots, dom, assume].iter().map(|s| s.to_string()).collect();
+                    out.push(format!("tls https {} {} ; {} {} - tcp", urihost, join_ops(&ops), servercert, alpn));
+                }
+            }
+        }
+    }
+    // server client-auth op sequences x client identities (incl. the 2-certificate chain)
+    for sops in SRV_OPS {
+        for id in ["", "id:c1", "id:c2", "id:c1chain", "id:c2 id:c1", "id:c1 roots"] {
+            for (alpn, assume, tr) in [("h2", "", "tcp"), ("h2", "", "duplex"), ("none", "h2:1", "tcp"), ("h2first", "", "duplex")] {
+                let ops: Vec<String> = ["ca:ca1", id, assume].iter().map(|s| s.to_string()).collect();
+                out.push(format!("tls https good {} ; s1good {} {} {}", join_ops(&ops), alpn, sops, tr));
+            }
+        }
+    }
+    // scheme x TLS configuration x server kind: the no-fallback clause
+    for scheme in ["https", "http", "HTTPS", "https+ohttp", "http+ohttps"] {
+        for client in ["notls", "auto", "", "ca:ca1", "ca:ca1 h2:1", "ca:ca2 h2:1"] {
+            for alpn in ["plain", "h2", "none"] {
+                for tr in TRANSPORTS {
+                    out.push(format!("tls {} good {} ; s1good {} - {}", scheme, client, alpn, tr).replace("  ", " "));
+                }
+            }
+        }
+    }
+
+    // thorough: the extended product, exhaustively (38 400 configurations)
+    if thorough {
+        for roots in ["ca:ca1", "ca:ca2", "", "cas:ca1+ca2", "ta:ca1"] {
+            for dom in ["dom:good", "dom:bad", "", "dom:other"] {
+                for urihost in ["good", "bad"] {
+                    for servercert in ["s1good", "s1bad", "s2good"] {
+                        for alpn in ["h2", "none", "http11", "h2last"] {
+                            for assume in ["h2:0", "h2:1"] {
+                                for sops in ["-", "ca:ca1", "ca:ca1+opt:1", "opt:1", "ca:ca2"] {
+                                    for id in ["", "id:c1", "id:c2", "id:c1chain"] {
+                                        for tr in ["tcp", "duplex"] {
+                                            let ops: Vec<String> = [roots, dom, id, assume].iter().map(|s| s.to_string()).collect();
+                                            out.push(format!("tls https {} {} ; {} {} {} {}", urihost, join_ops(&ops), servercert, alpn, sops, tr));
+                                        }
+                                    }
+                                }
+                            }
+                        }
+                    }
+                }
+            }
+        }
+    }
+
+    // the default path of real applications: Endpoint::connect() / connect_lazy() with tonic's own
+    // HttpConnector (here to 127.0.0.1 behind a recording proxy), matrix-style
+    for roots in ["ca:ca1", "ca:ca2", ""] {
+        for dom in ["dom:good", "dom:bad", ""] {
+            for servercert in ["s1ip", "s1good"] {
+                for (alpn, assume) in [("h2", "h2:0"), ("none", "h2:0"), ("none", "h2:1"), ("http11", "h2:1"), ("plain", "h2:1")] {
+                    for sops in ["-", "ca:ca1", "ca:ca1+opt:1"] {
+                        for id in ["", "id:c1", "id:c2"] {
+                            let ops: Vec<String> = [roots, dom, id, assume].iter().map(|s| s.to_string()).collect();
+                            let tr = *rng.pick(&["tcp-native", "tcp-native-lazy", "duplex-native", "tcp-native-cto", "tcp-native-x2"]);
+                            out.push(format!("tls https ip {} ; {} {} {} {}", join_ops(&ops), servercert, alpn, sops, tr));
+                        }
+                    }
+                }
+            }
+        }
+    }
+    for scheme in ["https", "http", "HTTPS", "https+ohttp", "http+ohttps"] {
+        for client in ["notls", "auto", "", "ca:ca1", "ca:ca1 h2:1"] {
+            for alpn in ["plain", "h2", "none"] {
+                for tr in ["tcp-native", "tcp-native-lazy", "duplex-native-cto"] {
+                    out.push(format!("tls {} ip {} ; s1ip {} - {}", scheme, client, alpn, tr).replace("  ", " "));
+                }
+            }
+        }
+    }
+
+    // random builder-call sequences on both sides
+    let nrand = if thorough { 250000 } else { 10000 };
+    for _ in 0..nrand {
+        let servercert = *rng.pick(&SERVER_CERTS);
+        let aim_ok = rng.chance(3, 5);
+        let mut urihost: &'static str = *rng.pick(&["good", "good", "bad", "other", "ip"]);
+        let ops = random_ops(rng, servercert, aim_ok, &mut urihost);
+        let alpn = if rng.chance(1, 25) { "plain" } else { *rng.pick(&ALPNS) };
+        let mut ops = ops;
+        if aim_ok && matches!(alpn, "none") && rng.chance(2, 3) {
+            ops.push("h2:1".into());
+        }
+        let sops = if aim_ok && rng.chance(1, 2) {
+            // steer towards an admitted client as well
+            let ca = *rng.pick(&["ca1", "ca2"]);
+            let id = if ca == "ca1" { *rng.pick(&["c1", "c1chain"]) } else { "c2" };
+            let pos = rng.below(ops.len() as u64 + 1) as usize;
+            ops.insert(pos, format!("id:{}", id));
+            let mut so = Vec::new();
+            if rng.chance(1, 3) {
+                so.push(format!("ca:{}", rng.pick(&["ca1", "ca2", "ica1"])));
+            }
+            if rng.chance(1, 3) {
+                so.push(format!("opt:{}", rng.below(2)));
+            }
+            so.push(format!("ca:{}", ca));
+            if rng.chance(1, 3) {
+                so.push(format!("opt:{}", rng.below(2)));
+            }
+            so.join("+")
+        } else {
+            rng.pick(&SRV_OPS).to_string()
+        };
+        let scheme = if rng.chance(1, 30) {
+            *rng.pick(&["http", "http+ohttps"])
+        } else if rng.chance(1, 20) {
+            *rng.pick(&["HTTPS", "https+ohttp"])
+        } else {
+            "https"
+        };
+        // mostly the in-memory pipe in the big runs (loopback ports are a finite resource)
+        let tr = if thorough {
+            *rng.pick(&["tcp", "tcp-lazy", "duplex", "duplex", "duplex", "duplex", "duplex-lazy", "duplex-lazy"])
+        } else {
+            *rng.pick(&TRANSPORTS)
+        };
+        let mut tr = tr.to_string();
+        if rng.chance(1, 6) {
+            tr.push_str("-cto");
+        }
+        if rng.chance(1, 8) {
+            tr.push_str("-x2");
+        }
+        if urihost == "ip" && rng.chance(1, if thorough { 8 } else { 2 }) {
+            tr.push_str("-native");
+        }
+        out.push(format!("tls {} {} {} ; {} {} {} {}", scheme, urihost, join_ops(&ops), servercert, alpn, sops, tr).replace("  ", " "));
+    }
+
+    // several clients, in random order, against one server instance
+    const CLIENT_POOL: [&str; 12] = [
+        "https good ca:ca1", "https good ca:ca1 id:c1", "https good ca:ca1 id:c2", "https good ca:ca1 id:c1chain",
+        "https good ca:ca2 id:c1", "https bad ca:ca1 id:c1", "https good notls", "http good notls",
+        "https good dom:bad ca:ca1", "https bad dom:good ca:ca1 id:c1", "https good ca:ca1 h2:1 id:c1", "https good auto",
+    ];
+    let nmulti = if thorough { 12000 } else { 800 };
+    for _ in 0..nmulti {
+        let k = rng.range(2, 6) as usize;
+        let clients: Vec<&str> = (0..k).map(|_| *rng.pick(&CLIENT_POOL)).collect();
+        let alpn = *rng.pick(&["h2", "h2", "h2", "h2last", "none", "plain"]);
+        let sops = *rng.pick(&SRV_OPS);
+        let base = if thorough { *rng.pick(&["tcp", "duplex", "duplex", "duplex"]) } else { *rng.pick(&["tcp", "duplex"]) };
+        let mode = *rng.pick(&["", "-par", "-par", "-x2", "-par-x2", "-lazy-par", "-lazy"]);
+        out.push(format!("tls {} ; s1good {} {} {}{}", clients.join(" | "), alpn, sops, base, mode));
+    }
+
+    // server configuration alone: random op sequences incl. malformed PEMs and a missing identity
+    let nsrv = if thorough { 3000 } else { 300 };
+    for _ in 0..nsrv {
+        let n = rng.below(5) as usize;
+        let mut ops: Vec<String> = Vec::new();
+        for _ in 0..n {
+            ops.push(match rng.below(8) {
+                0 | 1 => format!("id:{}", rng.pick(&["s1good", "s2good", "c1chain", "brokencert", "nokey"])),
+                2 | 3 => format!("ca:{}", rng.pick(&["ca1", "ca2", "ica1", "junk", "broken"])),
+                4 | 5 => format!("opt:{}", rng.below(2)),
+                _ => format!("ico:{}", rng.below(2)),
+            });
+        }
+        out.push(format!("srvcfg {}", if ops.is_empty() { "-".to_string() } else { ops.join("+") }));
+    }
+    out
 }
